@@ -235,9 +235,10 @@ def run(tier: str) -> int:
         # seeds whose start index lies just below 2^16: the sequence goes on beyond it (indices up to 2^16 + 2^12 are in scope)
         from black_it.samplers.halton import HaltonSampler
 
-        found, sd = [], rng.randrange(2**20)
-        while len(found) < (4 if tier == "quick" else 24) and sd < 2**31:
+        found, sd, tries = [], rng.randrange(2**20), 0
+        while len(found) < (4 if tier == "quick" else 24) and tries < 60000:      # (about one seed in 1600 qualifies)
             sd += 1
+            tries += 1
             st = _start_from_first_point(HaltonSampler(batch_size=1, random_state=sd, max_deduplication_passes=0)._halton(1, 1)[0, 0])  # noqa: SLF001
             if 2**16 - 40 <= st < 2**16:
                 found.append(sd)
